@@ -173,7 +173,11 @@ static void setData(lib::CaptureModulePayload& p, const RecipeFields& f)
         p.setData(uv.view[0], uv.view[1], uv.view[2], uv.view[3], f.vendor);
     }
     else
-        p.setData(f.str[0], f.str[1], f.str[2], f.str[3], f.vendor);
+    {
+        // half of these calls pass an empty string as a default-constructed view (data() == nullptr) - "no text" as many callers spell it
+        auto sv = [&](int i) { return (f.str[i].empty() && (f.cm.uptime & 2)) ? std::string_view{} : std::string_view(f.str[i]); };
+        p.setData(sv(0), sv(1), sv(2), sv(3), f.vendor);
+    }
 }
 static void setData(lib::InterfacePayload& p, const RecipeFields& f)
 {
